@@ -232,9 +232,8 @@ def check_first(col, repo, si, m):
     fadds = [c for c in ast.walk(fn) if isinstance(c, ast.Call) and call_name(c) == "add_statement" and src(c.func.value) == fname]
     okt = len(fadds) == 1 and isinstance(fadds[0].args[0], ast.Call) and call_name(fadds[0].args[0]) == "arbitrary_statement"
     if okt:
-        tpl = fadds[0].args[0].args[0]
-        lit = tpl.values[0].value if isinstance(tpl, ast.JoinedStr) and isinstance(tpl.values[0], ast.Constant) else const_str(tpl) or ""
-        okt = lit.startswith("throw ")
+        from sa.core.templates import leading_literal, parts
+        okt = leading_literal(parts(fn, fadds[0].args[0].args[0])).startswith("throw ")
     col.add("C04.R4", f.short, "failure-if-tests-the-flag-and-throws", okc and okt,
             "if(flag) { throw ... } must test the same flag and contain a throw statement", f.loc)
     att = [c for c in ast.walk(fn) if isinstance(c, ast.Call) and call_name(c) == "add_statement" and len(c.args) == 1 and src(c.args[0]) == fname]
